@@ -46,6 +46,7 @@ type caseResult struct {
 	Maxes    map[string]int64 `json:"maxes,omitempty"`
 	Sigs     []string         `json:"sigs,omitempty"`  // non-trivial signatures observed
 	Trace    []string         `json:"trace,omitempty"` // last operations (only with violations)
+	Stall    string           `json:"stall,omitempty"` // the bubble could never make progress again (see stallMonitor)
 }
 
 // crashReport describes a child that died while (or right after) running a case.
@@ -74,6 +75,7 @@ type isoOutcome struct {
 	children     int
 	raceExits    int
 	skipped      int // cases not run because of a crash storm
+	stalls       int // children that ended a case because its bubble could never run again
 }
 
 const (
@@ -126,6 +128,7 @@ func childMain(run func(c caseID) *caseResult) bool {
 		f.Write(append(append([]byte("R "), b...), '\n'))
 	}
 	earlyEmit = emit
+	go stallMonitor(emit)
 	for _, c := range decodeCases(spec) {
 		fmt.Fprintf(f, "S %s %d\n", c.Fam, c.I)
 		emitted = false
@@ -135,6 +138,110 @@ func childMain(run func(c caseID) *caseResult) bool {
 		}
 	}
 	return true
+}
+
+// ---- virtual-clock stall detection
+//
+// A goroutine of the bubble that waits for a sync.Mutex is not "durably
+// blocked": if the holder of that mutex is itself blocked for good, the bubble's
+// clock never advances, synctest.Wait never returns and the process would hang
+// until a wall-clock watchdog.  stallMonitor runs OUTSIDE the bubble.  Wall-clock
+// time only decides WHEN it looks; the judgement is a state fact taken from two
+// identical goroutine dumps: every goroutine of the bubble is blocked (none
+// running or runnable), at least one of them on a sync.Mutex.  Such a bubble can
+// never run again (its timers only fire when all goroutines are durably blocked,
+// and nothing outside touches it), so whatever the blocked goroutines were about
+// to do will never happen.  stallClassifier decides whether that is a violation
+// of the property; otherwise the case is INCONCLUSIVE.
+var (
+	progressTick    atomic.Int64
+	currentRes      atomic.Pointer[caseResult]
+	stallClassifier func(gs []gblock) (key, msg string)
+)
+
+const exitStalled = 7
+
+func bubbleSnapshot() (stalled bool, sig string, gs []gblock, dump string) {
+	buf := make([]byte, 16<<20)
+	buf = buf[:runtime.Stack(buf, true)]
+	dump = string(buf)
+	var ids []string
+	mutex := false
+	for _, g := range parseGoroutines(dump) {
+		if !strings.Contains(g.state, "synctest bubble") {
+			continue
+		}
+		base := g.state
+		if k := strings.Index(base, ","); k >= 0 {
+			base = base[:k]
+		}
+		switch {
+		case strings.HasSuffix(base, "(durable)"):
+		case base == "sync.Mutex.Lock", base == "sync.RWMutex.Lock", base == "sync.RWMutex.RLock":
+			mutex = true
+		default:
+			return false, "", nil, dump // something can still run
+		}
+		gs = append(gs, g)
+		ids = append(ids, g.header[:strings.Index(g.header, "[")]+base)
+	}
+	sort.Strings(ids)
+	return mutex && len(gs) > 0, strings.Join(ids, ";"), gs, dump
+}
+
+func stallMonitor(emit func(*caseResult)) {
+	last, idle := progressTick.Load(), 0
+	for {
+		time.Sleep(2 * time.Second)
+		now := progressTick.Load()
+		if now != last {
+			last, idle = now, 0
+			continue
+		}
+		if idle++; idle < 6 {
+			continue
+		}
+		ok1, sig1, _, _ := bubbleSnapshot()
+		if !ok1 {
+			continue
+		}
+		time.Sleep(time.Second)
+		ok2, sig2, gs, dump := bubbleSnapshot()
+		if !ok2 || sig1 != sig2 || progressTick.Load() != now {
+			continue
+		}
+		res := currentRes.Load()
+		if res == nil {
+			continue
+		}
+		var where []string
+		var stacks []string
+		for _, g := range gs {
+			if strings.HasPrefix(g.state, "sync.") {
+				where = append(where, firstGrpcFunc(g))
+			}
+		}
+		for _, blk := range strings.Split(dump, "\n\n") {
+			if strings.Contains(blk, "synctest bubble") && (strings.Contains(blk, "[sync.") || strings.Contains(blk, "retryLocked") || strings.Contains(blk, "maxStreamMu")) && len(stacks) < 6 {
+				if len(blk) > 2500 {
+					blk = blk[:2500] + "…"
+				}
+				stacks = append(stacks, blk)
+			}
+		}
+		res.Stall = fmt.Sprintf("the bubble can never run again: every goroutine is blocked, non-durably on a sync.Mutex in %v (virtual clock stopped)", where)
+		if stallClassifier != nil {
+			if key, msg := stallClassifier(gs); key != "" {
+				res.Viol = append(res.Viol, [2]string{key, msg})
+			}
+		}
+		res.Trace = append(res.Trace, stacks...)
+		if !emitted {
+			emitted = true
+			emit(res)
+		}
+		os.Exit(exitStalled)
+	}
 }
 
 // earlyEmit lets a case publish its result from inside the bubble when it knows
@@ -423,7 +530,17 @@ func runIsolated(cfg isoConfig, cases []caseID) *isoOutcome {
 					}
 				}
 				isCrash := strings.Contains(text, "\npanic: ") || strings.HasPrefix(text, "panic: ") || strings.Contains(text, "fatal error: ")
+				stalledExit := false
+				if ee, ok := err.(*exec.ExitError); ok && ee.ExitCode() == exitStalled {
+					stalledExit = true
+				}
 				switch {
+				case stalledExit && crashed != nil:
+					// the child reported a bubble whose virtual clock stopped for good
+					mu.Lock()
+					out.stalls++
+					mu.Unlock()
+					requeue(remaining)
 				case timedOut.Load():
 					mu.Lock()
 					what := "before its first case"
